@@ -25,6 +25,9 @@
     whole text (`listPushHostlist_repaired_terminates`, `_repaired_text`)
   The unchanged `hostlist_deranged_string` (`ret > m`) violates the first, third and fourth point:
   `deranged_writes_in_bounds_false`, `deranged_truncation_iff_false` (kernel-decided witness D14).
+  * `opt_list` (`-q`, `-Q`): nothing is stored outside `wcoll_str[1024]`, for every list
+    (`optList_ranged_in_bounds`, `optList_deranged_in_bounds`; these and `list_push_hostlist` are the
+    only callers of the printing functions in src/pdsh and src/modules)
   * `hostlist_shift_range` / `hostlist_pop_range` with their RECORD bookkeeping (`shiftRangeRun`,
     `popRangeRun`): as written they take a list apart group by group exactly when no moved group is
     joined by `hostlist_push_range` — in particular on every list whose joinable neighbours are joined
@@ -288,6 +291,15 @@ theorem optList_ranged_in_bounds (fixed : Bool) (h : HL) :
   have := (ranged_writes_in_bounds h WCOLL_STR (by decide)).1
   unfold optList
   simp only [Bool.false_eq_true, ↓reduceIte]
+  split <;> rename_i b _ he <;> (rw [he] at this; exact this)
+
+/-- `opt_list` (`-Q`, the expanded form, with the repaired truncation test D14): nothing is stored
+    outside `wcoll_str[1024]` either - for every list of well-formed records -/
+theorem optList_deranged_in_bounds (h : HL) (hg : GoodRecords h) :
+    ∀ w ∈ (optList true true h).1.log, w.1 < WCOLL_STR := by
+  have := (deranged_writes_in_bounds h hg WCOLL_STR (by decide)).1
+  unfold optList
+  simp only [↓reduceIte]
   split <;> rename_i b _ he <;> (rw [he] at this; exact this)
 
 /-- `list_push_hostlist`, UNCHANGED retry condition `(n*=2 < 0x7fffff)` (D2 / F14-XLOOP): the loop
